@@ -12,7 +12,9 @@
 package main
 
 import (
+	"encoding/json"
 	"fmt"
+	"os"
 	"runtime"
 	"strings"
 
@@ -240,6 +242,12 @@ func families(tier string) []*core.Family {
 }
 
 func main() {
+	if d := os.Getenv("C20_FREERACE"); d != "" {
+		reps := 2
+		fmt.Sscan(d, &reps)
+		freeRace(reps)
+		return
+	}
 	runtime.GOMAXPROCS(1)
 	core.Main(&core.Check{
 		ID:    "C20",
@@ -250,5 +258,15 @@ func main() {
 			"shared state is what the rewriter marks: every package-level variable of runtime/ and lib/* (except lib/golib) used inside a function body, and the fields of *GoFunction through its methods and GoCont.RunInThread; state reached only through the Go standard library (math/rand global source, debug.SetGCPercent) is seen by the differential oracle only",
 		},
 		Families: families,
+		Extra: func(tier string) map[string]interface{} {
+			m := map[string]interface{}{}
+			if b, err := os.ReadFile(core.Root() + "/.bin/c20.racepass.json"); err == nil {
+				var v interface{}
+				if json.Unmarshal(b, &v) == nil {
+					m["free_running_race_pass"] = v
+				}
+			}
+			return m
+		},
 	})
 }
